@@ -261,6 +261,8 @@ func init() {
 	add("C20", ruleR09_3, ruleR09_7, ruleR13_4, ruleR07_4)
 	add("C03", ruleR03_13, ruleR09_2)
 	add("C09", ruleR10_7)
+	add("C13", ruleR13_7)
+	add("C16", ruleR13_7)
 	add("C03", ruleR03_12)
 	add("C13", ruleR03_12)
 	add("C16", ruleR03_12)
